@@ -17,12 +17,17 @@ let view_of = function
   | _ -> failwith "view"
 
 let cfg_of = function
-  | List [Atom "cfg"; kind; ro; push; del; bdel; refr; mlimit; rlimit; umax] ->
+  | List (Atom "cfg" :: kind :: ro :: push :: del :: bdel :: refr :: mlimit :: rlimit :: umax :: _) ->
       { c_kind = (match kind with Atom "dir" -> KDir | _ -> KMem);
         c_readonly = bool ro; c_push = bool push; c_delete = bool del; c_blobdelete = bool bdel;
         c_referrer = bool refr; c_mlimit = z_of_int (int mlimit); c_rlimit = z_of_int (int rlimit);
         c_uploadmax = z_of_int (int umax) }
   | _ -> failwith "cfg"
+
+let pol_of = function
+  | List [Atom "cfg"; _; _; _; _; _; _; _; _; _; ut; dg; ws; grace] ->
+      { gp_untagged = bool ut; gp_dangling = bool dg; gp_withsubj = bool ws; gp_grace = zint grace }
+  | _ -> { gp_untagged = false; gp_dangling = false; gp_withsubj = true; gp_grace = z_of_int 3600000 }
 
 let range_of = function
   | Atom "nil" -> None
@@ -115,6 +120,7 @@ let run_probe (line : string) : string =
 let run_case (line : string) : string =
   match parse line with
   | List [Atom "case"; id; cfg; List [Atom "views"; List views]; List [Atom "reqs"; List reqs]] ->
+      let pol = ref (pol_of cfg) in
       let cfg = ref (cfg_of cfg) in
       let vt : (string, jview) Hashtbl.t = Hashtbl.create 64 in
       List.iter (function List [b; v] -> Hashtbl.replace vt (str b) (view_of v) | _ -> failwith "views") views;
@@ -144,10 +150,19 @@ let run_case (line : string) : string =
                    if rsp.rs_link = [] then continue := false else last := lc rsp.rs_link
                  done;
                  outs := Printf.sprintf "{\"pages\":[%s]}" (String.concat "," (List.rev !pages)) :: !outs
+             | List [Atom "gc"; r] ->
+                 let (s', rs) = gstep !cfg !pol env !st (GGC (cl (str r))) in
+                 st := s'; outs := json_resp rs :: !outs
+             | List [Atom "age"; r; d; age] ->
+                 let (s', rs) = gstep !cfg !pol env !st (GAge (cl (str r), cl (str d), zint age)) in
+                 st := s'; outs := json_resp rs :: !outs
+             | List [Atom "restart"] ->
+                 let (s', rs) = gstep !cfg !pol env !st GRestart in
+                 st := s'; outs := json_resp rs :: !outs
              | List [Atom "setcfg"; c] ->
-                 (* restart with another configuration on the same storage *)
-                 cfg := cfg_of c;
-                 let (s', r) = step !cfg env !st QRestart in
+                 (* Close under the old configuration, then a new server with another configuration on the same storage *)
+                 let (s', r) = gstep !cfg !pol env !st GRestart in
+                 cfg := cfg_of c; pol := pol_of c;
                  st := s';
                  outs := json_resp r :: !outs
              | List (Atom "group" :: xs) ->
